@@ -1,6 +1,7 @@
 (* C10 - Deny and allow lists behave as one consistent register.
    Only statements, each closed by [exact] of a lemma proved in Proofs/DenyStore_proofs.v. *)
-From Relay Require Import Base.Prelude Base.AList Model.DenyStore Proofs.DenyStore_proofs.
+From Relay Require Import Base.Prelude Base.AList Model.DenyStore Proofs.DenyStore_proofs Proofs.DenyStore_concurrent.
+From Relay Require Model.SerialEq.
 
 (* every history, from the empty store: a booking id is never on both lists *)
 Theorem C10_never_on_both_lists :
@@ -58,6 +59,41 @@ Theorem C10_bad_request_noop :
     step s (HDeny id e) = (s, RStatus 400) /\ step s (HAllow id e) = (s, RStatus 400).
 Proof. exact bad_request_noop. Qed.
 Print Assumptions C10_bad_request_noop.
+
+(* ---- concurrent use ----
+   The store is one object behind one mutex and each method is one critical section (that is C12's generated obligation
+   on the lock IR regenerated from the source). Instantiating the value-level serial-equivalence theorem with the store's
+   own step function: for ANY number of threads calling store operations and ANY schedule that runs them to completion,
+   the store ends in the state of the sequential history of the same operations in the order in which they took the
+   lock (each thread's own order kept) - so every statement above about histories holds of every concurrent execution;
+   the first one is spelled out. The harness side is the store-level stress (prune racing re-denies, session racing
+   deny, released pair by pair) with these invariants checked afterwards. *)
+Theorem C10_concurrent_use_is_a_sequential_history :
+  forall progs (s0 : st) sched (s : cstate),
+    SerialEq.run ueqb dupd sched (SerialEq.init progs (fun _ => s0)) = Some s -> SerialEq.finished s = true ->
+    SerialEq.st s tt = final s0 (map (@SerialEq.c_op unit op) (SerialEq.acqs s)) /\
+    (forall i p, nth_error progs i = Some p -> SerialEq.by_thread i (SerialEq.acqs s) = SerialEq.mkcalls i 0 p).
+Proof. exact concurrent_store_is_sequential. Qed.
+Print Assumptions C10_concurrent_use_is_a_sequential_history.
+
+Theorem C10_concurrent_never_on_both_lists :
+  forall t progs sched (s : cstate) id,
+    SerialEq.run ueqb dupd sched (SerialEq.init progs (fun _ => init t)) = Some s -> SerialEq.finished s = true ->
+    ~ (on_deny (SerialEq.st s tt) id /\ on_allow (SerialEq.st s tt) id).
+Proof. exact concurrent_never_on_both_lists. Qed.
+Print Assumptions C10_concurrent_never_on_both_lists.
+
+(* non-vacuity: three threads (deny 1 then ask; a session request for 1; an allow for 2); the schedule lets the session
+   request in first, then the deny, the allow, the question: the lock was taken in the order 1,0,2,0 and the store is
+   what that sequential history gives: 1 denied (the later deny took it off the allow list), 2 allowed *)
+Example C10_concurrent_witness :
+  let progs := [[(tt, ODeny 1 100); (tt, OIsDenied 1)]; [(tt, HSession false 1 70)]; [(tt, OAllow 2 50)]]%N in
+  match SerialEq.run ueqb dupd [1;1;1; 0;0;0; 2;2;2; 0;0;0] (SerialEq.init progs (fun _ => init 10)) with
+  | Some s => (SerialEq.finished s, map (@SerialEq.c_tid unit op) (SerialEq.acqs s),
+               abs_lookup (SerialEq.st s tt) 1%N, abs_lookup (SerialEq.st s tt) 2%N)
+  | None => (false, [], None, None)
+  end = (true, [1; 0; 2; 0], Some (Denied, 100%Z), Some (Allowed, 50%Z)).
+Proof. vm_compute. reflexivity. Qed.
 
 (* non-vacuity: a concrete history reaching a state with both lists populated, where the
    hypotheses of the theorems above are met *)
